@@ -13,8 +13,8 @@ RULE = ("cases = matrices of all families (incl. exactly singular ones) x nprocs
         "non-trivial = >=2 threads took panels, or nprocs > #panels, or the matrix is singular; distinct = case text")
 ASSUMPTIONS = ["liveness is decided as absence of a dead state met by the controller plus no timeout in free mode (a timeout alone is inconclusive)"]
 BUDGET = {
-    "quick": {"examples": 21000, "workers": 14, "time_budget": 80, "variants": ["asan"]},
-    "thorough": {"examples": 250000, "workers": 14, "time_budget": 1300, "variants": ["asan", "vendor"], "variant_share": {"asan": 0.7, "vendor": 0.3}},
+    "quick": {"examples": 21000, "workers": 14, "time_budget": 80, "variants": ["asan", "omp"], "variant_share": {"asan": 0.79, "omp": 0.21}},
+    "thorough": {"examples": 250000, "workers": 14, "time_budget": 1300, "variants": ["asan", "vendor", "omp", "long"], "variant_share": {"asan": 0.5, "vendor": 0.15, "omp": 0.25, "long": 0.1}},
 }
 
 
